@@ -68,31 +68,50 @@ Example C13_reverse_example :
   end.
 Proof. vm_compute. repeat split; reflexivity. Qed.
 
-(* Merging in the change that undoes an earlier one removes it: for well-formed A, B over a schema without user-ordered
-   lists, merging diff(B,A) into (a copy of) diff(A,B) gives the EMPTY diff, with either merge option - every cell
+(* Merging in the change that undoes an earlier one removes it: for well-formed A, B over ANY schema (the former
+   hypothesis that the schema has no user-ordered list at all is gone: a well-formed tree holds no instance of one,
+   wf_node, and that is all the merge model asks - the schema may declare user-ordered lists that the data do not use),
+   merging diff(B,A) into (a copy of) diff(A,B) gives the EMPTY diff, with either merge option - every cell
    of the merge table that an undo meets (create/delete, delete/create, replace/replace back, flag change/flag change
    back, none/none with the level below) ends in an operation none that lyd_diff_is_redundant() removes. *)
 Theorem C13_merge_undo :
-  forall sch mdflt fa fb, schema_nouo sch = true -> wfb sch fa = true -> wfb sch fb = true ->
+  forall sch mdflt fa fb, wfb sch fa = true -> wfb sch fb = true ->
   exists d1 d2, diff sch true fa fb = Ok d1 /\ diff sch true fb fa = Ok d2 /\ merge sch mdflt (map redup d1) d2 = Ok [].
-Proof. intros sch mdflt fa fb H. exact (merge_undo sch mdflt H fa fb). Qed.
+Proof. intros sch mdflt fa fb. exact (merge_undo sch mdflt fa fb). Qed.
 Print Assumptions C13_merge_undo.
 
 (* The composition law  apply (merge (diff A B) (diff B C)) A = Ok C  in the case it is proved for: C = A (the second
-   diff undoes the first).  Missing for the full statement: a proof for arbitrary C (no counterexample is known since
-   2dd55cd: the model agrees with libyang on every cell of the merge table in the correspondence run and the law is
-   checked on the implementation by dump equality on every generated triple, tools/props/comps_difftree.py). *)
+   diff undoes the first), over any schema (hypothesis schema_nouo removed, see C13_merge_undo).
+   Proved beyond it: C13_merge_apply_partial_mixed (end of this file) - every C in which the top-level identities touched
+   by both diffs are back at their state in A; C = A and the disjoint case are instances of it.
+   What remains missing for the full statement, precisely: a proof for the MIXED cells, i.e. for a root (or, below two
+   none nodes, a child) of diff(B,C) that meets a node of diff(A,B) with the same identity without undoing it:
+   replace + replace to a third value, create + replace / none, replace / none + delete, delete + create with another
+   value, none(inner) + none(inner) with changes below that are not each other's undo.  The level bookkeeping is done
+   (DiffMergeP.level_build: LevelSp from pointwise facts; mix_fold: the fold over the source roots with the outcomes
+   cancel / add); what these cells still need is (1) a third outcome of the fold - the met node replaced in place -, (2) per
+   cell the Sp of the merged node (for none + none: Sp_none_inner of the merged parent via sp_inner_build), (3) for
+   none + none the recursion through merge_children with the default-flag walks and the removal of a parent that
+   becomes redundant, and (4) for children added below a merged list instance a schema fact the model does not have yet:
+   LYD_INSERT_NODE_LAST_BY_SCHEMA (dd_ins_last) orders by schema id, so the keys stay the leading children of the merged
+   parent only if every key has a smaller id than the other children of its list.  With LYD_DIFF_MERGE_DEFAULTS the full
+   law is FALSE (known finding merge-defaults-opt-delete-create: delete + create of a leaf with its schema default value
+   keeps the deleted value), so the general statement can only be claimed for mdflt = false; the two theorems here hold
+   for both options because neither an undo nor a disjoint addition reaches that cell with differing values.
+   No counterexample is known for mdflt = false since 2dd55cd: the model agrees with libyang on every cell of the merge
+   table in the correspondence run and the law is checked on the implementation by dump equality on every generated
+   triple (tools/props/comps_difftree.py: DiffTreeLaws, DiffMergeOpts). *)
 Theorem C13_merge_apply_partial :
-  forall sch mdflt fa fb, schema_nouo sch = true -> wfb sch fa = true -> wfb sch fb = true ->
+  forall sch mdflt fa fb, wfb sch fa = true -> wfb sch fb = true ->
   exists d1 d2 m, diff sch true fa fb = Ok d1 /\ diff sch true fb fa = Ok d2 /\
                   merge sch mdflt (map redup d1) d2 = Ok m /\ apply sch m fa = Ok fa.
 Proof.
-  intros sch mdflt fa fb H Ha Hb. destruct (merge_undo sch mdflt H fa fb Ha Hb) as [d1 [d2 [E1 [E2 E3]]]].
+  intros sch mdflt fa fb Ha Hb. destruct (merge_undo sch mdflt fa fb Ha Hb) as [d1 [d2 [E1 [E2 E3]]]].
   exists d1, d2, []. repeat split; assumption.
 Qed.
 Print Assumptions C13_merge_apply_partial.
 
-(* the schema of the witnesses has no user-ordered list, the undo theorems apply to it *)
+(* the undo theorem on the witnesses (their schema happens to have no user-ordered list; not needed any more) *)
 Example C13_merge_undo_example :
   schema_nouo w_sch = true /\
   match diff w_sch true r_A r_B, diff w_sch true r_B r_A with
@@ -105,14 +124,15 @@ Proof. vm_compute. repeat split; discriminate. Qed.
    of the one has the identity of a root of the other), merging succeeds (every source root is added to the diff, none
    is redundant) and the merged diff applied to A yields C exactly, with either merge option.  Together with
    C13_merge_apply_partial (C = A: every source root meets its counterpart) these are the two ends of the merge table;
-   the mixed cells in between are tied by the correspondence run only. *)
+   the mixed cells in between are tied by the correspondence run only (list of what is missing: at
+   C13_merge_apply_partial).  Any schema: the hypothesis schema_nouo is removed here as well. *)
 Theorem C13_merge_apply_partial_disjoint :
-  forall sch mdflt fa fb fc d1 d2, schema_nouo sch = true ->
+  forall sch mdflt fa fb fc d1 d2,
   wfb sch fa = true -> wfb sch fb = true -> wfb sch fc = true ->
   diff sch true fa fb = Ok d1 -> diff sch true fb fc = Ok d2 ->
   (forall s t, In s d2 -> In t d1 -> dd_id sch s <> dd_id sch t) ->
   exists m, merge sch mdflt (map redup d1) d2 = Ok m /\ apply sch m fa = Ok fc.
-Proof. intros sch mdflt fa fb fc d1 d2 H. exact (merge_apply_disjoint sch mdflt H fa fb fc d1 d2). Qed.
+Proof. intros sch mdflt fa fb fc d1 d2. exact (merge_apply_disjoint sch mdflt fa fb fc d1 d2). Qed.
 Print Assumptions C13_merge_apply_partial_disjoint.
 
 (* its hypotheses are satisfiable: A = l[1] {c {x = 5}}, B = l[1] {c default}, C = B plus l[2] *)
@@ -126,6 +146,41 @@ Example C13_merge_disjoint_example :
       forallb (fun s => forallb (fun t => negb (same_idb w_sch (dd_node s) (dd_node t))) d1) d2 = true /\
       match merge w_sch false (map redup d1) d2 with
       | Ok m => length m = 2%nat /\ apply w_sch m r_A = Ok fc
+      | Err _ => False
+      end
+  | _, _ => False
+  end.
+Proof. vm_compute. repeat split; reflexivity. Qed.
+
+(* The composition law for every C in which each top-level identity that both diffs touch is back at its state in A
+   (the hypothesis is stated on the trees: where a root of diff(B,C) meets a root of diff(A,B), C and A hold the same
+   instance, or both none): the roots that meet cancel (every cell an undo reaches, any depth below them), the other
+   roots of diff(B,C) are added, the other roots of diff(A,B) stay, and the merged diff applied to A yields C exactly,
+   with either merge option.  C13_merge_apply_partial (C = A) and C13_merge_apply_partial_disjoint (no root meets one)
+   are its two extreme instances; in between are partial rollbacks combined with independent changes.  Still missing:
+   roots that meet WITHOUT cancelling (list at C13_merge_apply_partial). *)
+Theorem C13_merge_apply_partial_mixed :
+  forall sch mdflt fa fb fc d1 d2,
+  wfb sch fa = true -> wfb sch fb = true -> wfb sch fc = true ->
+  diff sch true fa fb = Ok d1 -> diff sch true fb fc = Ok d2 ->
+  (forall s t j, In s d2 -> In t d1 -> dd_id sch s = Some j -> dd_id sch t = Some j ->
+                 find_match sch true fc (Some j) = find_match sch true fa (Some j)) ->
+  exists m, merge sch mdflt (map redup d1) d2 = Ok m /\ apply sch m fa = Ok fc.
+Proof. intros sch mdflt fa fb fc d1 d2. exact (merge_apply_mixed sch mdflt fa fb fc d1 d2). Qed.
+Print Assumptions C13_merge_apply_partial_mixed.
+
+(* a mixed triple: A = l[1] {c {x = 5}}, B = l[1] {c default}, C = A plus l[2] - diff(B,C) rolls l[1] back (its root
+   meets the root of diff(A,B), and C holds A's instance) and creates l[2] (meets none); one root remains *)
+Example C13_merge_mixed_example :
+  let l2 := DN 0 [] false [] [DN 1 [50] false [] []; DN 2 [] false [] [DN 3 [56] false [] []]] in
+  let fc := r_A ++ [l2] in
+  wfb w_sch fc = true /\
+  match diff w_sch true r_A r_B, diff w_sch true r_B fc with
+  | Ok d1, Ok d2 =>
+      length d1 = 1%nat /\ length d2 = 2%nat /\
+      existsb (fun s => existsb (fun t => same_idb w_sch (dd_node s) (dd_node t)) d1) d2 = true /\
+      match merge w_sch false (map redup d1) d2 with
+      | Ok m => length m = 1%nat /\ apply w_sch m r_A = Ok fc
       | Err _ => False
       end
   | _, _ => False
